@@ -340,6 +340,46 @@ pub fn run(args: &Args) -> Report {
     } else {
         report.outcome("bearer-token-debug-is-constant");
     }
+    // ... nor do the generated types that hold one (aliases of bearertoken, aliases of those,
+    // objects / unions / collections of them), plain or pretty
+    {
+        use crate::gen::*;
+        use std::collections::{BTreeMap, BTreeSet};
+        for text in ["QZTTOKXJW", "eyJTT1BTRUNSRVQ.c2VjcmV0", "a+b/c=="] {
+            let t = BearerToken::new(text).unwrap();
+            let alias = TokenAlias(t.clone());
+            let alias2 = TokenAliasAlias(alias.clone());
+            let creds = Credentials::builder()
+                .token(t.clone())
+                .alias(alias.clone())
+                .alias_alias(alias2.clone())
+                .maybe(OptTokenAlias(Some(t.clone())))
+                .many(vec![alias2.clone()])
+                .set(TokenSetAlias([t.clone()].into_iter().collect::<BTreeSet<_>>()))
+                .by_name([("k".to_string(), t.clone())].into_iter().collect::<BTreeMap<_, _>>())
+                .by_token([(alias.clone(), 1)].into_iter().collect::<BTreeMap<_, _>>())
+                .build();
+            let renderings: Vec<(&str, String)> = vec![
+                ("alias of bearertoken", format!("{:?} {:#?}", alias, alias)),
+                ("alias of alias of bearertoken", format!("{:?} {:#?}", alias2, alias2)),
+                ("alias of optional<bearertoken>", format!("{:?}", OptTokenAlias(Some(t.clone())))),
+                ("alias of set<bearertoken>", format!("{:?}", TokenSetAlias([t.clone()].into_iter().collect()))),
+                ("object holding tokens", format!("{:?} {:#?}", creds, creds)),
+                ("union variant bearertoken", format!("{:?}", Secret::Token(t.clone()))),
+                ("union variant alias", format!("{:?}", Secret::Alias(alias2.clone()))),
+                ("union variant object", format!("{:?}", Secret::Creds(creds.clone()))),
+                ("Option / Vec of tokens", format!("{:?} {:?}", Some(t.clone()), vec![t.clone()])),
+            ];
+            for (what, out) in renderings {
+                report.evaluations += 1;
+                if out.contains(text) {
+                    report.violation(format!("C09|token-holder-debug-shows-the-token|{}", what), format!("the Debug rendering of a generated {} contains the token: {}", what, out.chars().take(200).collect::<String>()), json!({"kind": "debug"}));
+                } else {
+                    report.outcome("token-holder-debug-hides-the-token");
+                }
+            }
+        }
+    }
     report.sample("leak-scan", json!({"endpoint": "safeMix", "states": ["Unparsable(auth)", "Valid", "..."], "channels": ["SafeParams", "Error::safe_params", "cause when cause_safe"], "taints": "one distinctive token per argument position, searched raw / base64 / lower-case"}));
     report.sample("macro", json!({"endpoint": "post_body", "authorization": "Basic QZTTOKXJW", "body": "x7"}));
     report.bound("max_simultaneous_deviations_with_all_kinds", max_dev);
